@@ -511,6 +511,27 @@ fn scenarios(out: &mut Out, level: u64) {
                         ops.push(op("accept", 0));
                         run(out, &base(ops));
                     }
+                    // (h) a substream the remote has already closed is closed locally while the sink is back-pressured
+                    // (> 128 KiB unflushed, wire not writable): poll_close is Pending once and completes after the wire
+                    // drains; the substream must end fully closed, i.e. its reader still sees the buffered data and then
+                    // EOF (seeded mutant C24-4: the pending path re-inserted the wrong state)
+                    if max_buf == 1 && chunk == 0 && max_sub >= 2 {
+                        let mut ops = vec![inj("open", 0, 0), op("accept", 0), json!({"a": "budget", "n": 0}), op("open", 0)];
+                        for _ in 0..20 {
+                            ops.push(json!({"a": "write", "sid": 100, "len": 8192}));
+                        }
+                        ops.push(inj("data", 0, 4));
+                        ops.push(inj("close", 0, 0));
+                        // an accept attempt takes both frames off the wire: the data is buffered, the remote's close is known
+                        ops.push(op("accept", 0));
+                        ops.push(json!({"a": "read", "sid": 0, "max": 2}));
+                        ops.push(json!({"a": "close", "sid": 0}));
+                        ops.push(json!({"a": "budget", "n": -1}));
+                        ops.push(json!({"a": "close", "sid": 0}));
+                        ops.push(json!({"a": "read", "sid": 0, "max": 64}));
+                        ops.push(json!({"a": "read", "sid": 0, "max": 64}));
+                        run(out, &base(ops));
+                    }
                     // (f) zero-length data frames take buffer slots as well; remote reset after flood
                     let mut ops = vec![inj("open", 0, 0), inj("open", 1, 0), op("accept", 0)];
                     for i in 0..(max_buf + 2) {
